@@ -2,8 +2,11 @@ package batchproc
 
 import (
 	"encoding/json"
+	"errors"
 	"fmt"
 	"os"
+	"os/exec"
+	"runtime"
 	"sort"
 	"strings"
 	"testing"
@@ -95,6 +98,36 @@ func classify(h *History) facts {
 	add(f.multiCtx, "multi_context_export")
 	add(f.twoContrib, "two_contributor_multi_context_export")
 	add(f.oddLast, "odd_context_last")
+	if h.Sc.Chan > 0 {
+		f.labels = append(f.labels, fmt.Sprintf("shard_channel_of_%d_slots", h.Sc.Chan))
+		// how many calls were outstanding at once (by step)
+		most := 0
+		for _, c := range h.Callers {
+			if !c.Started {
+				continue
+			}
+			n := 0
+			for _, o := range h.Callers {
+				if o.Started && o.StartStep <= c.StartStep && (!o.Done || o.DoneStep > c.StartStep) {
+					n++
+				}
+			}
+			if n > most {
+				most = n
+			}
+		}
+		add(most > h.Sc.Chan+2, "more_outstanding_calls_than_channel_and_shard_hold")
+	}
+	kinds := map[int]bool{}
+	for _, e := range h.Exports {
+		var ee *ExportError
+		if e.Outcome != nil && errors.As(e.Outcome, &ee) {
+			kinds[ee.Kind] = true
+		}
+	}
+	for k := range kinds {
+		f.labels = append(f.labels, "export_failure:"+failKindNames[k%len(failKindNames)])
+	}
 	sharedSpan := false
 	for _, e := range h.Exports {
 		seen := map[string]int{}
@@ -211,13 +244,13 @@ func sequentialScenario(sc *Scenario) bool {
 var specs = map[string]propSpec{
 	"C05": {
 		id:         "C05",
-		profile:    Profile{Gated: 30, AutoFail: true, Cancels: false, Shutdown: true, Conc: []int{0, 0, 1, 2}, EarlyPct: 40, SharedCtx: true, Concurrent: true, MetaPct: 25, DelayedConsume: 15},
+		profile:    Profile{Gated: 30, AutoFail: true, Cancels: false, Shutdown: true, Conc: []int{0, 0, 1, 2}, EarlyPct: 40, SharedCtx: true, Concurrent: true, MetaPct: 25, DelayedConsume: 15, FailKinds: true},
 		verdict:    VerdictC05,
 		nontrivial: func(f facts, h *History) bool { return f.split || f.merged },
 	},
 	"C06": {
 		id:         "C06",
-		profile:    Profile{Gated: 70, HonourCancel: 30, AutoFail: true, Cancels: true, Deadlines: true, Shutdown: true, Conc: []int{0, 0, 1, 2, 3}, EarlyPct: 15, SharedCtx: true, Concurrent: true, MetaPct: 20, DelayedConsume: 15},
+		profile:    Profile{Gated: 70, HonourCancel: 30, AutoFail: true, Cancels: true, Deadlines: true, Shutdown: true, Conc: []int{0, 0, 1, 2, 3}, EarlyPct: 15, SharedCtx: true, Concurrent: true, MetaPct: 20, DelayedConsume: 15, FailKinds: true},
 		verdict:    VerdictC06,
 		nontrivial: func(f facts, h *History) bool { return f.mixedOutcome || f.cancelPartial },
 	},
@@ -235,7 +268,7 @@ var specs = map[string]propSpec{
 	},
 	"C11": {
 		id:         "C11",
-		profile:    Profile{Gated: 85, HonourCancel: 30, Cancels: true, Deadlines: true, Shutdown: true, Conc: []int{0, 1, 1, 2, 3}, EarlyPct: 25, SharedCtx: true, Concurrent: true, MetaPct: 25, DelayedConsume: 15},
+		profile:    Profile{Gated: 85, HonourCancel: 30, Cancels: true, Deadlines: true, Shutdown: true, Conc: []int{0, 1, 1, 2, 3}, EarlyPct: 25, SharedCtx: true, Concurrent: true, MetaPct: 25, DelayedConsume: 15, FailKinds: true},
 		verdict:    VerdictC11,
 		nontrivial: func(f facts, h *History) bool { return h.Sc.Gated && len(h.Exports) >= 2 },
 	},
@@ -276,6 +309,26 @@ func TestC18(t *testing.T) { runProp(t, "C18") }
 // through the oracle of their property, without rapid. Because the Go
 // scheduler decides races inside one consume group, a scenario is run up to
 // 20 times; any failing run is a failure.
+// replayPinned re-runs this test binary under taskset for one saved case.
+func replayPinned(t *testing.T, id, path string, cpus int) bool {
+	if os.Getenv("VERIF_PINNED") != "" {
+		fmt.Printf("REPLAY-FAIL property=%s file=%s\nchild process sees %d CPUs, the case needs %d\n", id, path, runtime.NumCPU(), cpus)
+		return false
+	}
+	cmd := exec.Command("taskset", "-c", fmt.Sprintf("0-%d", cpus-1), os.Args[0], "-test.run", "^TestReplay$", "-test.v", "-test.timeout", "600s")
+	cmd.Env = append(os.Environ(), "VERIF_PINNED=1", "VERIF_REPLAY="+path, "VERIF_PROPERTY="+id)
+	out, err := cmd.CombinedOutput()
+	for _, l := range strings.Split(string(out), "\n") {
+		if strings.HasPrefix(l, "REPLAY-START ") {
+			continue // already printed by the parent
+		}
+		if l != "" && !strings.HasPrefix(l, "=== ") && !strings.HasPrefix(l, "--- ") && l != "PASS" && l != "FAIL" {
+			fmt.Println(l)
+		}
+	}
+	return err == nil
+}
+
 func TestReplay(t *testing.T) {
 	only := os.Getenv("VERIF_PROPERTY")
 	var ids []string
@@ -318,6 +371,15 @@ func TestReplay(t *testing.T) {
 			var sc Scenario
 			if err := json.Unmarshal(cases[path], &sc); err != nil {
 				t.Fatalf("%s: %v", path, err)
+			}
+			if sc.Chan > 0 && sc.Chan != runtime.NumCPU() {
+				// the scenario needs a shard channel of sc.Chan slots: replay it
+				// in a child process pinned to that many CPUs (the child prints
+				// the REPLAY-OK / REPLAY-FAIL line)
+				if !replayPinned(t, id, path, sc.Chan) {
+					t.Errorf("%s: failed in the child process pinned to %d CPUs", path, sc.Chan)
+				}
+				continue
 			}
 			msg, failures := "", 0
 			for round := 0; round < 20; round++ {
